@@ -24,7 +24,7 @@ CHECKS = {
             "Trusts refcodec (own page layer, bitwise CRC-32C, own XML parser; roxmltree as second opinion) and its calibration on E57RefImpl/libE57Format/las2e57 files.",
             SIM + "seeded writer programs on a simulated device, judged by an independent fsck/decoder", "DESIGN.md §5 C02"),
     "C06": (True, "exploration",
-            "Seeded writer programs with blob / image / mask lengths swept over every residue modulo 1020 and 4, fed through source pipes with seeded short reads, read back through E57Reader::blob into sinks with seeded short writes; count, length and bytes compared with the scene model, per image descriptor. Every fourth run contains one add_blob whose source reports an error after k bytes (all residues modulo 4): the call must fail and everything added afterwards must read back.",
+            "Seeded writer programs (points are compared as in C01 as well) with blob / image / mask lengths swept over every residue modulo 1020 and 4, fed through source pipes with seeded short reads, read back through E57Reader::blob into sinks with seeded short writes; count, length and bytes compared with the scene model, per image descriptor. Every fourth run contains one add_blob whose source reports an error after k bytes (all residues modulo 4): the call must fail and everything added afterwards must read back.",
             "Trusts the scene model, SimDisk and SimPipe; the device is fault-free apart from short transfers, the only fault is the error of one blob source.",
             SIM + "seeded writer programs x blob length/placement residues x source/sink pipe chunk schedules vs. scene model", "DESIGN.md §5 C06"),
     "C11": (True, "exploration",
@@ -56,7 +56,7 @@ CHECKS = {
             "'All byte strings' is explored by mutation of valid files located with refcodec's map; sampling only.",
             SIM + "seeded media/producer corruption at seeded instants x all entry points, panic/abort oracle in child processes", "DESIGN.md §5 C08"),
     "C09": (True, "exploration",
-            "Same corruption runs as C08 plus size-targeted plans; every API call (each iterator step) is metered: device bytes read, device operations (full-transfer schedules), peak allocation and allocation calls against budgets linear in the stored file size; iterators must not yield more than recordCount; 1 GiB allocation ceiling and 20 s watchdog as backstops.",
+            "Same corruption runs as C08 plus size-targeted plans; every API call (each iterator step) is metered: device bytes read, device operations (full-transfer schedules), peak allocation and allocation calls against budgets linear in the stored file size (peak memory: 4096 x file size + 64 MiB, derived from the API's own value and point types; sources capped at 192 KiB so that the budget stays below the allocation ceiling); iterators must not yield more than recordCount; 1 GiB allocation ceiling and 20 s watchdog as backstops.",
             "Budget constants separate linear from unbounded, they are not performance bounds; pure CPU loops are caught only by the watchdog.",
             SIM + "seeded corruption x step/allocation/yield budgets measured by the simulated device and a counting allocator", "DESIGN.md §5 C09"),
     "C10": (True, "exploration",
